@@ -342,6 +342,36 @@ fn oracle_c09(c: &TrCase, t: &Trained, bytes: &[u8], fails: &mut Vec<(String, St
                 ));
             }
         }
+        // the same with the features the trainer itself stored for each annotated boundary of the corpus (hook H2): the
+        // model must apply the learned weight of exactly those features at exactly that boundary
+        let stored: Vec<&str> = if t.examples.is_empty() { vec![] } else { t.examples.split('/').collect() };
+        let mut next = 0usize;
+        for (k, l) in &c.corpus {
+            let s0 = if *k == 't' { Sentence::from_tokenized(l) } else { Sentence::from_partial_annotation(l) };
+            let Ok(s0) = s0 else { continue };
+            let Ok(mut s) = Sentence::from_raw(s0.as_raw_text().to_string()) else { continue };
+            p.predict(&mut s);
+            for (b, &lab) in s0.boundaries().iter().enumerate() {
+                if lab == CB::Unknown {
+                    continue;
+                }
+                let Some(ex) = stored.get(next) else { return Ok(()) };
+                next += 1;
+                let feats = ex.split_once('|').map(|x| x.1).unwrap_or("");
+                let mut exp = bias;
+                for fk in feats.split('+').filter(|x| !x.is_empty()) {
+                    let (f, k) = fk.rsplit_once('*').unwrap_or((fk, "1"));
+                    exp += wq.get(f).copied().unwrap_or(0) * k.parse::<f64>().unwrap_or(1.0) as i64;
+                }
+                let got = s.boundary_scores()[b] as i64;
+                if got != exp {
+                    return Err(format!(
+                        "config charw={} charn={} typew={} typen={} dictn={}: boundary {b} of the training sentence {:?} is scored {got} by the trained model; the features the trainer stored for it ({feats}) with their learned weights give {exp}",
+                        c.cw, c.cn, c.tw, c.tn, c.ml, s0.as_raw_text()
+                    ));
+                }
+            }
+        }
         Ok::<(), String>(())
     });
     match r {
@@ -423,10 +453,10 @@ pub fn silence_stdout<T>(f: impl FnOnce() -> T) -> T {
 /// message and not a panic, the written model passes the C11 oracle (re-read, accepted by both predictors, predicts and
 /// tags without panicking, weights within 16 bits), carries the requested window sizes, and lists only dictionary words
 /// that the dictionary files contain (after normalisation unless --no-norm).
-pub fn cli_train(thorough: bool, seed: u64) {
+pub fn cli_train(thorough: bool, seed: u64, family: &str) {
     use vaporetto_rules::{string_filters::KyteaFullwidthFilter, StringFilter};
     let mut buf: Vec<u8> = vec![];
-    crate::gen_train::gen(&mut buf, "C11", thorough, seed ^ 0xC11C);
+    crate::gen_train::gen(&mut buf, family, thorough, seed ^ 0xC11C);
     let lines: Vec<String> = String::from_utf8_lossy(&buf).lines().map(|l| l.to_string()).collect();
     let dir = crate::cli::scratch_dir("c11");
     let s = |p: &std::path::Path| p.display().to_string();
@@ -446,13 +476,29 @@ pub fn cli_train(thorough: bool, seed: u64) {
         std::fs::write(&dp, dict_lines.iter().map(|l| format!("{l}\n")).collect::<String>()).unwrap();
         let _ = std::fs::remove_file(&mp);
         let mut args: Vec<String> = vec!["--model".into(), s(&mp), "--solver".into(), c.solver.to_string()];
-        // at least one data set option is required by the tool; an empty file stands for an empty corpus
-        args.extend(["--tok".into(), s(&tp)]);
+        // at least one data set option is required by the tool; an empty file stands for an empty corpus.
+        // Every other case spreads the corpus and the dictionary over SEVERAL files of the same option (all must be used)
+        let several = i % 2 == 1;
+        let write_split = |base: &std::path::Path, lines: &[String], opt: &str, args: &mut Vec<String>| {
+            if several && lines.len() >= 2 {
+                let cut = (lines.len() + 1) / 2;
+                for (k, part) in [&lines[..cut], &lines[cut..]].iter().enumerate() {
+                    let p = std::path::PathBuf::from(format!("{}.f{k}", base.display()));
+                    std::fs::write(&p, part.iter().map(|l| format!("{l}\n")).collect::<String>()).unwrap();
+                    args.extend([opt.to_string(), p.display().to_string()]);
+                }
+            } else {
+                args.extend([opt.to_string(), base.display().to_string()]);
+            }
+        };
+        let tok_lines: Vec<String> = tok.iter().map(|x| x.to_string()).collect();
+        let part_lines: Vec<String> = part.iter().map(|x| x.to_string()).collect();
+        write_split(&tp, &tok_lines, "--tok", &mut args);
         if !part.is_empty() {
-            args.extend(["--part".into(), s(&pp)]);
+            write_split(&pp, &part_lines, "--part", &mut args);
         }
         if !dict_lines.is_empty() {
-            args.extend(["--dict".into(), s(&dp)]);
+            write_split(&dp, &dict_lines, "--dict", &mut args);
         }
         for (k, v) in [("--charw", c.cw), ("--charn", c.cn), ("--typew", c.tw), ("--typen", c.tn), ("--dictn", c.ml)] {
             args.extend([k.to_string(), v.to_string()]);
@@ -526,6 +572,25 @@ pub fn cli_train(thorough: bool, seed: u64) {
                             }
                             if let Some(d) = m.dict.iter().find(|d| !words.contains(&d.0)) {
                                 problems.push(format!("dictionary word {:?} is not in the dictionary files", d.0));
+                            }
+                            // which tokens have tag models, and with which candidate tags, does not depend on the learner
+                            if let Some(lm) = lib.model.as_ref().and_then(|x| x.to_vec().ok()).and_then(|b| crate::model::AbsModel::from_bytes(&b)) {
+                                let key = |x: &crate::model::AbsModel| {
+                                    // up to trailing categories without candidates (how many tag slots a sentence has is not preserved by
+                                    // the text form in which this step hands the normalised corpus to the library)
+                                    let mut v: Vec<(String, Vec<Vec<String>>)> = x.tag_models.iter().map(|t| {
+                                        let mut cats: Vec<Vec<String>> = t.tags.iter().map(|c| { let mut c = c.clone(); c.sort(); c }).collect();
+                                        while cats.last().map_or(false, |c| c.is_empty()) {
+                                            cats.pop();
+                                        }
+                                        (t.token.clone(), cats)
+                                    }).filter(|x| !x.1.is_empty()).collect();
+                                    v.sort();
+                                    v
+                                };
+                                if key(&m) != key(&lm) {
+                                    problems.push(format!("the tool's model has the tag models {:?}, the library trained on the same data has {:?}", key(&m), key(&lm)));
+                                }
                             }
                         }
                     }
